@@ -47,7 +47,7 @@ fn judge_request(case: &NetCase, obs: &Obs, id: usize) -> Option<(String, String
                 Some(("response-for-another-request".into(), format!("{desc} received the response produced for request {id_hdr:?}")))
             } else if origin_hdr != Some(srv) {
                 Some(("response-from-wrong-origin".into(), format!("{desc} was answered by server {origin_hdr:?}")))
-            } else if status != 200 + (id % 3) as u16 {
+            } else if status != (if is_upgrade(case, spec) { 101 } else { 200 + (id % 3) as u16 }) {
                 Some(("response-status-altered".into(), format!("{desc} received status {status}")))
             } else if !body_ok {
                 Some(("response-body-altered".into(), format!("{desc} received a body of {body_len} bytes that differs from what the server produced")))
@@ -96,6 +96,25 @@ impl Engine for NetEngine {
             for m in &obs.mismatches {
                 rep.violate(format!("{p}/request-altered-on-the-way"), m.clone());
             }
+            // upgraded connections: the raw exchange after the 101 must be intact on the server's side
+            // too, and nothing else may be served on a connection after it was taken over
+            for (id, s, conn, t, problem) in &obs.upgrades {
+                if let Some(pr) = problem {
+                    if case.reqs[*id].cancel_at.is_none() {
+                        rep.violate(format!("{p}/upgraded-stream-corrupted"), format!("request #{id} upgraded connection {conn} of s{s}; server half at {t} ms: {pr}"));
+                    }
+                } else {
+                    rep.class("upgrade-completed");
+                }
+                if let Some(pos) = obs.handler_start.iter().position(|(i, _, _, _)| i == id) {
+                    if let Some((j, _, _, tj)) = obs.handler_start[pos + 1..].iter().find(|(_, s2, c2, _)| s2 == s && c2 == conn) {
+                        rep.violate(format!("{p}/request-on-upgraded-connection"), format!("request #{j} was handled at {tj} ms on connection {conn} of s{s}, which request #{id} had taken over by an upgrade"));
+                    }
+                }
+                if case.reqs.iter().enumerate().any(|(j, r)| j != *id && r.server as usize % nsrv == *s && r.start as u64 >= *t) {
+                    rep.class("request-after-upgrade-same-origin");
+                }
+            }
             for id in 0..case.reqs.len() {
                 if case.reqs[id].handler_error {
                     continue;
@@ -114,9 +133,39 @@ impl Engine for NetEngine {
 
         // ---- C07
         if p == "C07" {
-            if let Some((srv, t_sig)) = case.shutdown {
+            let fired = match (case.shutdown, case.shutdown_on_accept) {
+                (Some((srv, _)), Some(_)) => match obs.signal_at.filter(|t| *t < HORIZON_MS) {
+                    Some(t) => Some((srv, t)),
+                    // not fired by a scripted request (the probe after the horizon may trigger it)
+                    None => {
+                        rep.class("accept-triggered-signal-never-fired");
+                        None
+                    }
+                },
+                (Some((srv, t)), None) => Some((srv, t as u64)),
+                _ => None,
+            };
+            if let Some((srv, t_sig)) = fired {
                 let s = srv as usize % nsrv;
-                let t_sig = t_sig as u64;
+                if let Some(k) = case.shutdown_on_accept {
+                    // the signal resolved inside the accept of connection k: no later connection
+                    // may be accepted, not even within the same poll of the serving future
+                    rep.class("signal-during-accept");
+                    for (conn, t_acc) in &obs.accepted[s] {
+                        if *conn > k as usize {
+                            rep.violate("C07/connection-accepted-after-signal", format!("server s{s} accepted connection {conn} at {t_acc} ms although the signal had resolved while connection {k} was being accepted (at {t_sig} ms)"));
+                        }
+                    }
+                    for (id, hs, conn, t_h) in obs.handler_start.iter() {
+                        if *hs == s && *conn > k as usize {
+                            rep.violate("C07/request-served-on-late-connection", format!("request #{id} handled at {t_h} ms on connection {conn}, accepted after the signal"));
+                        }
+                    }
+                    let to_s: Vec<u16> = case.reqs.iter().filter(|r| r.server as usize % nsrv == s).map(|r| r.start).collect();
+                    if to_s.iter().enumerate().any(|(i, a)| to_s[i + 1..].contains(a)) {
+                        rep.class("simultaneous-connects-at-signal-server");
+                    }
+                }
                 match &obs.server_done[s] {
                     None => rep.violate("C07/server-future-never-resolves", format!("signal at {t_sig} ms, the serving future is still pending at the end")),
                     Some((Err(e), t)) => rep.violate("C07/server-future-failed", format!("signal at {t_sig} ms, serving future resolved at {t} ms with error {e}")),
@@ -285,9 +334,18 @@ fn servers_strategy() -> impl Strategy<Value = Vec<u8>> {
 }
 
 pub fn c01_strategy(max_reqs: usize) -> impl Strategy<Value = NetCase> {
+    c01_strategy_up(max_reqs, 1)
+}
+
+/// `up_weight` out of 8 requests ask for a protocol upgrade (effective on HTTP/1.1 only)
+pub fn c01_strategy_up(max_reqs: usize, up_weight: u32) -> impl Strategy<Value = NetCase> {
     (servers_strategy(), env_strategy()).prop_flat_map(move |(servers, (pool, connect_delay, latency, buf))| {
         let n = servers.len() as u8;
-        proptest::collection::vec(req_strategy(n, true, false), 1..=max_reqs).prop_map(move |reqs| NetCase {
+        let req = (req_strategy(n, true, false), prop_oneof![8 - up_weight => Just(false), up_weight => Just(true)]).prop_map(|(mut r, up)| {
+            r.upgrade = up;
+            r
+        });
+        proptest::collection::vec(req, 1..=max_reqs).prop_map(move |reqs| NetCase {
             servers: servers.clone(),
             reqs,
             faults: vec![],
@@ -297,6 +355,7 @@ pub fn c01_strategy(max_reqs: usize) -> impl Strategy<Value = NetCase> {
             latency,
             buf,
             timeout_ms: None,
+            shutdown_on_accept: None,
         })
     })
 }
@@ -332,7 +391,35 @@ pub fn c07_strategy(max_reqs: usize) -> impl Strategy<Value = NetCase> {
             latency,
             buf,
             timeout_ms: None,
+            shutdown_on_accept: None,
         }})
+    })
+}
+
+/// Bursts of simultaneous connections with the signal resolving synchronously while the k-th of
+/// them is being accepted, i.e. in the middle of one poll of the serving future.
+pub fn c07_burst_strategy(max_reqs: usize) -> impl Strategy<Value = NetCase> {
+    (servers_strategy(), env_strategy(), 0u8..4).prop_flat_map(move |(servers, (pool, connect_delay, latency, buf), k)| {
+        let n = servers.len() as u8;
+        (proptest::collection::vec((req_strategy(n, false, false), prop_oneof![3 => Just(0u16), 1 => Just(7u16), 1 => 0u16..30]), 1..=max_reqs), 0..n).prop_map(move |(reqs, srv)| NetCase {
+            servers: servers.clone(),
+            reqs: reqs
+                .into_iter()
+                .map(|(mut r, start)| {
+                    r.start = start;
+                    r
+                })
+                .collect(),
+            faults: vec![],
+            shutdown: Some((srv, 0)),
+            // an unpooled client dials once per request: bursts of simultaneous connects
+            pool: if k % 2 == 0 { None } else { pool.clone() },
+            connect_delay,
+            latency,
+            buf,
+            timeout_ms: None,
+            shutdown_on_accept: Some(k),
+        })
     })
 }
 
@@ -349,6 +436,7 @@ pub fn c19_strategy(max_reqs: usize) -> impl Strategy<Value = NetCase> {
             latency,
             buf,
             timeout_ms: Some(timeout),
+            shutdown_on_accept: None,
         })
     })
 }
@@ -370,6 +458,7 @@ pub fn c09_strategy(max_reqs: usize) -> impl Strategy<Value = NetCase> {
                 latency,
                 buf,
                 timeout_ms: None,
+                shutdown_on_accept: None,
             })
     })
 }
@@ -422,6 +511,8 @@ pub fn run(ctx: &Ctx) -> i32 {
     let (rule, mins): (&str, Vec<(&'static str, f64)>) = match prop {
         "C01" => {
             total.merge(run_generated(ctx, &engine, "concurrent-requests", move || c01_strategy(max_reqs), ctx.cases(30_000, 1_500_000), 300));
+            // upgrade-heavy leg: half of the requests ask for a protocol upgrade (101 + raw exchange)
+            total.merge(run_generated(ctx, &engine, "upgraded-connections", move || c01_strategy_up(max_reqs.min(10), 4), ctx.cases(8_000, 400_000), 300));
             // pool-level leg: every uncancelled request of a fault-free poolsim history must succeed
             {
                 use crate::engines::poolsim as ps;
@@ -435,19 +526,21 @@ pub fn run(ctx: &Ctx) -> i32 {
                 total.merge(run_generated(ctx, &pool_engine, "poolsim-fault-free", move || ps::case_strategy(wt, max_ops, ps::cfg_any_strategy()), ctx.cases(120_000, 4_000_000), 2000));
             }
             (
-                "1-3 servers (h1 / h2 / auto) behind Server::builder() on in-process duplex acceptors and the real client stack (Client builder with streaming request body, pool on/off, both continue_after_preemption settings, max_idle in {0,1,2,32}) on one paused current_thread runtime; up to 8 (quick) / 24 (thorough) requests with id-tagged path, query, headers and patterned bodies (0-20 kB, chunked with gaps), handler delays, chunked responses, duplex buffers 1 B-64 KiB, transport connect delay and per-read latency, cancellation at any virtual instant. The handler checks every request against the script; the client checks every response against its own id, origin, status and body. non-trivial = two requests to one origin overlap AND (some connection carried two requests OR a request was cancelled); distinct by hash of the case",
+                "1-3 servers (h1 / h2 / auto) behind Server::builder() on in-process duplex acceptors and the real client stack (Client builder with streaming request body, pool on/off, both continue_after_preemption settings, max_idle in {0,1,2,32}) on one paused current_thread runtime; up to 8 (quick) / 24 (thorough) requests with id-tagged path, query, headers and patterned bodies (0-20 kB, chunked with gaps), handler delays, chunked responses, duplex buffers 1 B-64 KiB, transport connect delay and per-read latency, cancellation at any virtual instant; 1 in 8 requests (1 in 2 in the upgrade leg) asks for a protocol upgrade on HTTP/1.1 - the handler answers 101 and both sides exchange patterned raw bytes over the taken-over connection, which must arrive intact at both ends, end with end-of-stream, and never carry another request. The handler checks every request against the script; the client checks every response against its own id, origin, status and body. non-trivial = two requests to one origin overlap AND (some connection carried two requests OR a request was cancelled); distinct by hash of the case",
                 {
                     // thresholds are stated for the netsim leg and scaled by its share of all evaluations
                     let share = ctx.cases(30_000, 1_500_000) as f64 / (ctx.cases(30_000, 1_500_000) + ctx.cases(120_000, 4_000_000)) as f64;
-                    vec![("connection-carried-2+-requests", 0.3 * share), ("request-cancelled", 0.1 * share), ("h2-request", 0.3 * share), ("h1-request", 0.3 * share), ("cancel-while-dialing", 0.1), ("dial-preempted", 0.05)]
+                    vec![("connection-carried-2+-requests", 0.3 * share), ("request-cancelled", 0.1 * share), ("h2-request", 0.3 * share), ("h1-request", 0.3 * share), ("cancel-while-dialing", 0.1), ("dial-preempted", 0.05), ("upgrade-completed", 0.02), ("request-after-upgrade-same-origin", 0.01)]
                 },
             )
         }
         "C07" => {
             total.merge(run_generated(ctx, &engine, "signal-sweep", move || c07_strategy(max_reqs.min(8)), ctx.cases(30_000, 1_500_000), 300));
+            // the signal resolves synchronously in the middle of an accept burst (one poll of the server)
+            total.merge(run_generated(ctx, &engine, "signal-during-accept-burst", move || c07_burst_strategy(max_reqs.min(8)), ctx.cases(8_000, 400_000), 300));
             (
-                "same simulation as C01 without cancellations, with a graceful-shutdown signal on one server at a virtual instant swept over 0-90 ms so that it lands before accept, during protocol detection, mid request head/body (chunk gaps, latency), during the handler, mid response, and on idle keep-alive connections; requests also start after the signal. Checked: serving future resolves Ok exactly at the signal; every request whose handler started before the signal gets its complete correct response; every connection task counted by the executor wrapper finishes; nothing is accepted after the signal. non-trivial = the signal fired while a handler was executing; distinct by hash of the case",
-                vec![("signal-while-handler-executing", 0.1), ("handler-started-before-signal", 0.3), ("request-after-signal", 0.2), ("idle-connection-open-at-signal", 0.1)],
+                "same simulation as C01 without cancellations, with a graceful-shutdown signal on one server at a virtual instant swept over 0-90 ms so that it lands before accept, during protocol detection, mid request head/body (chunk gaps, latency), during the handler, mid response, and on idle keep-alive connections; requests also start after the signal. Checked: serving future resolves Ok exactly at the signal; every request whose handler started before the signal gets its complete correct response; every connection task counted by the executor wrapper finishes; nothing is accepted after the signal. A second leg resolves the signal synchronously while the k-th connection of a burst of simultaneous connects is being accepted (inside one poll of the serving future): no connection beyond the k-th may be accepted or served. non-trivial = the signal fired while a handler was executing; distinct by hash of the case",
+                vec![("signal-while-handler-executing", 0.1), ("handler-started-before-signal", 0.3), ("request-after-signal", 0.2), ("idle-connection-open-at-signal", 0.1), ("signal-during-accept", 0.05), ("simultaneous-connects-at-signal-server", 0.03)],
             )
         }
         _ => {
